@@ -147,6 +147,19 @@ CLAIMED["C04"] = dict(
          "safeguard does not intervene. Finiteness, the reflective-wall clause and the round-off size are numeric and not decided.",
     note="Trusted: clang, AST export, sympy; the Riemann solver's outputs are opaque symbols (its own symmetry is C05).")
 
+CLAIMED["C01"] = dict(
+    level="other", design="3/C01",
+    technique="static analysis: typestate / must-pass-through / control-dependence rules on the CFG of every photon task body, of the source "
+              "task creation code and of both worker loops",
+    text="Decides the per-task resource and accounting discipline that is necessary for `exactly once, nothing left behind` under every "
+         "schedule: every task slot and photon buffer taken is published / attached / freed exactly once on every path, the input buffer of a "
+         "traversal is freed and that of a re-emission is re-attached or freed, the done-counter advances exactly once by input size minus the "
+         "sizes of the buffers kept for later work, the worker loops release locks, free the slot and publish every returned task, the run flag "
+         "is cleared only under (no buffer in flight and done == requested), source batches equal what is counted as launched, external-source "
+         "tasks announce their packets only after storing them, the flush is scheduled once and holds its block's lock, and photon batches "
+         "are handed out under the source's lock. Quiescence detection under a racy schedule and the per-source split arithmetic are not decided.",
+    note="Trusted: clang, AST export; C08 container guarantees; the run flag is a plain bool eventually seen by all workers.")
+
 NOT_APPLICABLE = {
     "C13": "Equality with the RANLUX sequence, range [0,1) and byte-identical snapshots are facts about computed 48-bit arithmetic and library I/O; no sound static domain or on-disk reference to validate against. Its one structural clause (generator state fully dumped/restored) is decided under C09.",
     "C15": "Validity of a Voronoi tessellation and agreement of two constructions quantify over real generator sets; correctness rests on geometric predicates and flip sequences whose outcomes are runtime values; no clause has its truth in the shape of the code.",
